@@ -155,13 +155,20 @@ func reinitCase(t *engine.T) {
 	warmups := []string{"none", "Sign(msg,SM2opts)", "Sign(digest,nil)", "Sign;Sign"}
 	for _, a := range kinds {
 		for _, b := range kinds {
-			for _, w := range warmups {
+			for _, w0 := range append(append([]string{}, warmups...), "in-place:Sign(msg,SM2opts)", "in-place:Sign;Sign") {
+				// "in-place:" = the caller keeps ONE *ecdsa.PrivateKey, rotates its D/X/Y in place and converts it again
+				// (the receiver shares those big.Int objects after the first conversion)
+				w, inPlace := w0, false
+				if len(w0) > 9 && w0[:9] == "in-place:" {
+					w, inPlace = w0[9:], true
+				}
 				obj := new(sm2.PrivateKey)
 				pubB := pubFor(b.d)
 				key := "hist/reinit/FromECPrivateKey/" + cls(a.d) + "->" + cls(b.d)
-				desc := fmt.Sprintf("new(PrivateKey).FromECPrivateKey(d=%s); warm-up %s; FromECPrivateKey(d=%s) on the same object", a.name, w, b.name)
+				desc := fmt.Sprintf("new(PrivateKey).FromECPrivateKey(d=%s); warm-up %s; FromECPrivateKey(d=%s) on the same object (source rotated in place: %v)", a.name, w, b.name, inPlace)
+				src := ecKey(a.d, pubFor(a.d))
 				pv, frame := guarded(func() {
-					if _, err := obj.FromECPrivateKey(ecKey(a.d, pubFor(a.d))); err != nil {
+					if _, err := obj.FromECPrivateKey(src); err != nil {
 						panic("c06: FromECPrivateKey refused an SM2 curve key: " + err.Error())
 					}
 					switch w {
@@ -173,7 +180,14 @@ func reinitCase(t *engine.T) {
 						obj.Sign(engine.NewScriptReader(midBlocks()...), msg, sm2.DefaultSM2SignerOpts)
 						obj.Sign(engine.NewScriptReader(midBlocks()...), dig, nil)
 					}
-					if _, err := obj.FromECPrivateKey(ecKey(b.d, pubB)); err != nil {
+					next := ecKey(b.d, pubB)
+					if inPlace {
+						src.D.Set(b.d)
+						src.X.Set(pubB.X)
+						src.Y.Set(pubB.Y)
+						next = src
+					}
+					if _, err := obj.FromECPrivateKey(next); err != nil {
 						panic("c06: FromECPrivateKey refused an SM2 curve key: " + err.Error())
 					}
 				})
@@ -181,7 +195,7 @@ func reinitCase(t *engine.T) {
 					t.Fail(key+"/panic", "%s: panic %v at %s", desc, pv, frame)
 					continue
 				}
-				t.Nontrivial("reinit/" + a.name + "/" + b.name + "/" + w)
+				t.Nontrivial("reinit/" + a.name + "/" + b.name + "/" + w0)
 				eMsg := c.Digest(ecref.DefaultUID, pubB, msg)
 				for call, e := range [][]byte{eMsg, dig, eMsg} {
 					var sig []byte
